@@ -22,6 +22,7 @@ type c13Type struct {
 func (t c13Type) Full() string { return t.Pkg + "." + t.Name }
 
 type c13Model struct {
+	selfCallOnly string // full name of a type whose only self relation is a call (must not become an edge)
 	types []c13Type
 	deps  []core_domain.CodeDataStruct
 	E     map[Edge]bool // reference edges between project types (A != B)
@@ -120,6 +121,7 @@ func c13Build(c *engine.C, n int, pkgFull bool) c13Model {
 	switch self {
 	case "self-call":
 		addRel(0, "call", m.types[0], true)
+		m.selfCallOnly = m.types[0].Full()
 	case "self-field":
 		addRel(0, "field", m.types[0], true)
 	}
@@ -210,6 +212,11 @@ func c13Check(m c13Model, filter string, includeSel string) engine.Result {
 	for k := range nodes {
 		if _, ok := g.NodeList[k]; !ok {
 			res.Violations = append(res.Violations, engine.V("nodes", "missing", "project type %q has no node", k))
+		}
+	}
+	for _, r := range g.RelationList {
+		if m.selfCallOnly != "" && r.From == m.selfCallOnly && r.To == m.selfCallOnly {
+			res.Violations = append(res.Violations, engine.V("edges", "self-edge-from-call", "type %s calls its own method and got an edge to itself; the statement only counts calls to a project type different from the caller", r.From))
 		}
 	}
 	got := map[Edge]bool{}
